@@ -42,6 +42,9 @@ class _HMixin:
         self.sh.log("begin_exit", wid=self.wid)
 
     def __call__(self, x):
+        if x is None:
+            self.sh.log("item_none", wid=self.wid)
+            return None
         call, idx, dur = x[:3]
         self.items_done += 1
         self.sh.log("item", wid=self.wid, call=call, idx=idx)
